@@ -89,6 +89,38 @@ Theorem C07_spec_pbkw_blob_unwraps_v1_v3 : forall O, laws O -> forall ver z head
   pw_unwrap (pwA O ver 128 z) header pw (spec_pwA O (ver ++ header) pw ptk s i n) = Ok ptk.
 Proof. exact spec_pwA_blob_unwraps. Qed.
 
+Theorem C07_spec_pbkw_blob_unwraps_v2_v4 : forall O, laws O -> forall ver header pw ptk s mem time para n blob,
+  (mem < 2 ^ 64)%N -> (time < 2 ^ 32)%N -> (para < 2 ^ 32)%N ->
+  (mem mod 1024 = 0)%N -> (mem / 1024 < 2 ^ 32)%N -> length s = 16 -> length n = 24 ->
+  spec_pwB O (ver ++ header) pw ptk s mem time para n = Some blob ->
+  pw_unwrap (pwB O ver (v4_prekey O)) header pw blob = Ok ptk.
+Proof. exact spec_pwB_blob_unwraps. Qed.
+Theorem C07_spec_pbkw_blob_unwraps_v4_sodium : forall O, laws O -> forall header pw ptk s mem time n blob,
+  (mem < 2 ^ 64)%N -> (time < 2 ^ 32)%N -> length s = 16 -> length n = 24 ->
+  spec_pwB O (str "k4" ++ header) pw ptk s mem time 1 n = Some blob ->
+  pw_unwrap (na_pw O) header pw blob = Ok ptk.
+Proof. exact spec_pwB_blob_unwraps_sodium. Qed.
+Theorem C07_spec_seal_blob_unseals_v3 : forall O, laws O -> forall bad sk pk key esk epk blob,
+  length key = 32 -> p384_pk O sk = Some pk -> p384_pk O esk = Some epk ->
+  spec_seal_v3 O pk key esk = Some blob -> v3_pke_unseal_gen O 128 bad sk blob = Ok key.
+Proof. exact spec_seal_v3_blob_unseals. Qed.
+Theorem C07_spec_seal_blob_unseals_v2_v4 : forall O, laws O -> forall ver strict xpk_of sk seed key r,
+  length key = 32 -> take 32 sk = seed -> xpk_of sk = Some (x_of_seed O seed) ->
+  (strict = true -> x_mul O r (x_of_seed O seed) <> zero32) ->
+  x_pke_unseal O ver strict xpk_of sk (spec_seal_x O ver (x_of_seed O seed) key r) = Ok key.
+Proof. exact spec_seal_x_blob_unseals. Qed.
+Theorem C07_spec_seal_blob_unseals_v1 : forall O, laws O -> forall sk key r0 cn blob,
+  length key = 32 -> length r0 = 512 ->
+  rsa_enc O (rsa_pk O sk) (be_val (v1_mask_r r0)) = Some cn ->
+  spec_seal_v1 O (rsa_pk O sk) key (v1_mask_r r0) = Some blob ->
+  v1_pke_unseal O sk blob = Ok key.
+Proof. exact spec_seal_v1_blob_unseals. Qed.
+
+Print Assumptions C07_spec_pbkw_blob_unwraps_v2_v4.
+Print Assumptions C07_spec_pbkw_blob_unwraps_v4_sodium.
+Print Assumptions C07_spec_seal_blob_unseals_v3.
+Print Assumptions C07_spec_seal_blob_unseals_v2_v4.
+Print Assumptions C07_spec_seal_blob_unseals_v1.
 Print Assumptions C07_spec_pie_blob_unwraps_v1_v3.
 Print Assumptions C07_spec_pie_blob_unwraps_v2_v4.
 Print Assumptions C07_spec_pbkw_blob_unwraps_v1_v3.
